@@ -719,6 +719,4 @@ def TRUNC(
     if num_digits == 0:
         return math.trunc(number)
 
-    num_digits = int(num_digits)
-
-    return math.trunc(number * 10**num_digits) / 10**num_digits
+    return _round(number, num_digits, _rounding=decimal.ROUND_DOWN)
